@@ -459,3 +459,24 @@ def lock_wrapper_cannot_panic(ck, tm, rule):
                                       "and the mutex stays poisoned for every later injector or preventer" % short(bad[0].name)),
                   where(bad[0]) if bad else None)
     return n
+
+
+def write_protection_obligations(ck, tm, g, rule, install=True, restore=True):
+    """Every entry write of an installation, and the restoring write of the guard's destructor, is preceded on its own path by a
+    protection change that covers it and allows writing (C01 R1.3). Repeated where a faulting write breaks another property: a write
+    into a page that was not (or not successfully) made writable is a SIGSEGV - inside an installation it turns a clean refusal into
+    a process abort, inside the destructor it aborts the unwinding that was supposed to restore (C05), and the function is never
+    restored (C02). Returns the number of writes decided."""
+    n = 0
+    if install:
+        for r in patches.analyse(tm):
+            if r.role != "entry" or r.variant.status != "returned":
+                continue
+            n += 1
+            patches.check_protection(ck, rule, tm, r.root, r.variant, r.ev, r.dst, r.ev.extra["count"], "entry")
+    if restore and g.drop_fn:
+        for v in tm.variants(g.drop_fn):
+            for ev in code_writes(v):
+                n += 1
+                patches.check_protection(ck, rule, tm, g.drop_fn, v, ev, ev.extra["dst"], ev.extra["count"], "restore")
+    return n
